@@ -47,6 +47,14 @@ def mayTouch : Cmd → List Field
 
 macro "frame_by " f:ident : tactic => `(tactic| (
   unfold $f
+  try unfold branchCreate
+  try unfold branchRename
+  try unfold branchDelete
+  try unfold switchTo
+  try unfold switchCreate
+  try unfold updateRefTo
+  try unfold resetTo
+  try unfold commitWrite
   try dsimp only
   try simp only [Bool.not_false, Bool.not_true, Bool.false_eq_true, if_false, if_true]
   repeat' split
